@@ -20,7 +20,7 @@ RULE = ("outcome sequences x label encodings (ints other than 0/1, strings, bool
 SHARD = 40
 
 ENC_NAMES = ["int01", "ints_5_9", "strings", "bools", "floats", "three_classes", "np0d", "np1d", "list1", "series1", "mixed_pairs",
-             "strings_prefix", "int_vs_float", "mixed_types"]
+             "strings_prefix", "int_vs_float", "mixed_types", "scalar_vs_list", "list_vs_tuple", "list_vs_nested", "array_vs_list"]
 JUNK = ["none", "scalar", "string", "vector", "matrix", "frame", "nan"]
 
 
@@ -57,6 +57,15 @@ def encode(enc, t, p, k, rng_state):
     if enc == "mixed_types":
         # disagreeing pairs of different Python types, agreeing pairs of the same value
         return (t, t) if t == p else (t, "other")
+    # the two labels in DIFFERENT containers (for pure-Python containers `==` between them is not element-wise)
+    if enc == "scalar_vs_list":
+        return t, [p]
+    if enc == "list_vs_tuple":
+        return [t], (p,)
+    if enc == "list_vs_nested":
+        return [t], [[p]]
+    if enc == "array_vs_list":
+        return np.array([t]), [p]
     if enc == "mixed_pairs":
         # another pair with the same agreement
         a = (k * 5 + 1) % 4
